@@ -22,6 +22,13 @@ from pathlib import Path
 
 VERIF = Path(__file__).resolve().parent.parent
 
+# checks other than the seeded change's own property that are also run against it
+EXTRA = {
+    'C06-2': ['C07'], 'C09-2': ['C06'], 'C03-3': ['C06'], 'C10-1': ['C11', 'C05'], 'C11-2': ['C10', 'C05'], 'C11-3': ['C05'],
+    'C05-2': ['C11'], 'C05-3': ['C10', 'C11'], 'C02-1': ['C03', 'C08'], 'C08-2': ['C03'], 'C17-2': ['C10'], 'C15-3': ['C07'],
+    'C06-1': ['C07'], 'C07-2': ['C06', 'C09'], 'C01-2': ['C03'],
+}
+
 
 def run(cmd, **kw):
     return subprocess.run(cmd, stdout=subprocess.PIPE, stderr=subprocess.STDOUT, text=True, **kw)
@@ -84,15 +91,25 @@ def main():
         print(json.dumps(evaluate(sdir, props, a.tier, demo=not a.no_demo, baseline=a.tests), indent=1))
     else:
         rc = 0
+        rows = []
+        only = set(a.dir.split(',')) if a.dir else None
         for sdir in sorted((VERIF / 'seeded').iterdir()):
             if not (sdir / 'patch.diff').exists():
                 continue
+            if only and sdir.name not in only:
+                continue
             meta = json.loads((sdir / 'meta.json').read_text())
-            props = [p for p in a.props.split(',') if p] or meta.get('detected_by') or [meta['property']]
+            props = [p for p in a.props.split(',') if p] or sorted(set([meta['property']] + EXTRA.get(sdir.name, [])))
             res = evaluate(sdir, props, a.tier, demo=False)
             caught = [p for p, r in res.get('results', {}).items() if r['exit'] == 1]
             print(f"{sdir.name}: caught_by={caught} " + ' '.join(f"{p}:exit{r['exit']}({r['wall']}s)" for p, r in res.get('results', {}).items())
-                  + (f" ERROR {res['error']}" if 'error' in res else ''))
+                  + (f" ERROR {res['error']}" if 'error' in res else ''), flush=True)
+            if 'results' in res:
+                meta['detected_by'] = caught
+                meta.setdefault('detection', {})
+                for p, r in res['results'].items():
+                    meta['detection'][p] = {'tier': a.tier, 'exit': r['exit'], 'keys': r['keys'], 'wall_s': r['wall']}
+                (sdir / 'meta.json').write_text(json.dumps(meta, indent=1) + '\n')
             if not caught:
                 rc = 1
         sys.exit(rc)
